@@ -20,4 +20,17 @@ REVIEWED = {
         "assignment-style fixture with several targets on one line, yields same-line definitions that differ in name only)",
     "R4b|fixtures::resolver::<impl fixtures::FixtureDatabase>::find_fixture_at_position|loop:early-exit|fields=file_path,line,name":
         "match key (file, line, name == word under the cursor): unique per file",
+    "R7a|fixtures::scanner::<impl fixtures::FixtureDatabase>::extract_package_name_from_dist_info::{closure#1}|RangeFrom|`_`[start=sum `_` + constant 1 without a starts_with guard]":
+        "`name_version[i + 1..]` inside the char_indices() predicate: `i` is the byte offset of the current char and the slice is "
+        "evaluated only after `c == '-'` (short-circuit &&), a one-byte char, so i + 1 is the next boundary",
+    "R7a|fixtures::resolver::<impl fixtures::FixtureDatabase>::get_completion_context_from_text|RangeFrom|`def_line`[start=len() of another string (`_`)]":
+        "`def_line[name_start..]`: name_start is \"async def \".len() or \"def \".len(); def_line is the trimmed line selected by the "
+        "backward scan whose condition is starts_with(\"def \") || starts_with(\"async def \"), and the async prefix is tested first",
+    "R7c|fixtures::scanner::<impl fixtures::FixtureDatabase>::load_plugin_from_entry_point|expect on parent":
+        "path.parent() of a path whose file_name() was just matched against Some(\"__init__.py\"): a path with a file name has a parent",
+    "R7c|handle_fixtures_unused|unwrap on to_string_pretty":
+        "serde_json::to_string_pretty of Vec<serde_json::Value> built by json!({\"file\": String, \"fixture\": String}): string keys and "
+        "string values only, serialisation cannot fail",
+    "R7c|main|expect on build":
+        "tokio runtime construction at process start-up, before any request is served (not reachable from document content or requests)",
 }
